@@ -277,6 +277,8 @@ let run_lsp (x : Sexp.t) : string =
 let run mode (line : string) : string =
   if mode = "pos" then Drv_pos.run line else
   if mode = "pvm" then Drv_pvm.run line else
+  if mode = "parse_src" then Drv_parse.run "parse" line else
+  if mode = "parse_rt" then Drv_parse.run "rt" line else
   let x = parse line in
   match mode with
   | "climb" ->
